@@ -170,7 +170,15 @@ func parseGroup(node *yaml.Node, schema Schema, offsetLine, offsetColumn int, co
 				}
 				return group
 			}
-			group.Limit, _ = strconv.Atoi(nodeValue(entry.val))
+			limit, perr := strconv.ParseInt(nodeValue(entry.val), 0, strconv.IntSize)
+			if perr != nil {
+				group.Error = ParseError{
+					Line: entry.key.Line,
+					Err:  fmt.Errorf("group limit must be a %s, got %s", describeTag(intTag), nodeValue(entry.val)),
+				}
+				return group
+			}
+			group.Limit = int(limit)
 		case "labels":
 			if entry.val.ShortTag() != mapTag {
 				group.Error = ParseError{
